@@ -48,6 +48,13 @@ def build(spec):
         for i, o in enumerate(A.flat_items(acl.items)):
             o.note = Note(["item", i])
         if kind == "acl":
+            if spec.get("block") and not acl_case.get("group_by") and len(acl.items) >= 1:
+                # an explicit block with its OWN prefix / name among the plain entries of an ungrouped ACL
+                lo = spec["block"][0] % len(acl.items)
+                chunk = acl.items[lo:lo + max(1, spec["block"][1])]
+                blk = C.AceGroup(items=list(chunk), platform=acl.platform, group_by="== ", name="== BLOCK",
+                                 note=Note(["block"]))
+                acl.items[lo:lo + len(chunk)] = [blk]
             return acl
         if not acl.items:
             raise Invalid()
@@ -370,6 +377,8 @@ def obj_st(draw, small_acl=False):
                                     seqs=True, neq_multi=False))
         if kind == "acegroup":
             spec["acl"]["group_by"] = ""
+        if kind == "acl" and draw(st.sampled_from([True, False, False])):
+            spec["block"] = [draw(st.integers(0, 5)), draw(st.integers(1, 3))]
         spec["input"] = draw(st.lists(st.sampled_from(["interface Eth1", "interface Eth2"]), max_size=2, unique=True))
         spec["output"] = draw(st.lists(st.sampled_from(["interface Eth3"]), max_size=1))
     elif kind == "ace":
